@@ -61,7 +61,7 @@ func execRel(r *RNG, c *Case) {
 	case "samvar-topa", "samvar-toma":
 		a = runSamVariants(c, false)
 		b = runFastaRoute(c, c.Get("relkind"))
-	case "legacy", "unwrap-toma":
+	case "legacy", "unwrap-toma", "window-slice-topa":
 		a, b = execRelSam(c)
 	case "c12":
 		execC12(c)
@@ -272,6 +272,10 @@ func c14Gen(r *RNG, id string) *Case {
 	}
 	refName := "REF" + fmt.Sprint(r.Intn(90)+10)
 	gbTxt, gbProto := renderGenbank(genes, genome)
+	if r.Chance(1, 8) {
+		gbTxt = padGenbank(r, gbTxt)
+		c.Tag("genbank-origin-across-a-64KiB-boundary")
+	}
 	var rows []gffRow
 	for _, g := range genes {
 		rows = append(rows, gffRowsOf(g)...)
